@@ -82,10 +82,20 @@ func newConn(ctx context.Context, tr net.Conn, keys []ech.Key) (c *ech.Conn, err
 				}
 			}))
 		}
+		if !withDebug && nilDebug(tr) {
+			opts = append(opts, ech.WithDebug(nil)) // "no debug output": the same as not passing the option
+		}
 		c, e = ech.NewConn(ctx, tr, opts...)
 		return e
 	})
 	return c, err
+}
+
+// nilDebug decides, as a pure function of the scripted input, whether a call
+// also passes WithDebug(nil).
+func nilDebug(tr net.Conn) bool {
+	w, ok := tr.(*wire.Conn)
+	return ok && w.Remaining()%3 == 1
 }
 
 // keySnapshot / keysChanged detect writes into the key material handed to NewConn.
@@ -171,13 +181,16 @@ func uniform(t *rapid.T, label string, n int) int {
 
 // newConnRaw is newConn without the panic guard (callers guard themselves).
 func newConnRaw(tr net.Conn, keys []*hello.Key) (*ech.Conn, error) {
+	var opts []ech.Option
+	if nilDebug(tr) {
+		opts = append(opts, ech.WithDebug(nil))
+	}
 	if len(keys) >= 2 {
 		// WithKeys appends: a key list may arrive in several options
 		all := echKeys(keys...)
-		return ech.NewConn(context.Background(), tr, ech.WithKeys(all[:1]), ech.WithKeys(all[1:]))
+		opts = append(opts, ech.WithKeys(all[:1]), ech.WithKeys(all[1:]))
+	} else if keys != nil {
+		opts = append(opts, ech.WithKeys(echKeys(keys...)))
 	}
-	if keys != nil {
-		return ech.NewConn(context.Background(), tr, ech.WithKeys(echKeys(keys...)))
-	}
-	return ech.NewConn(context.Background(), tr)
+	return ech.NewConn(context.Background(), tr, opts...)
 }
